@@ -1037,3 +1037,86 @@ func checkFuncrefGlobalImportPinsExporter(c *core.Ctx) {
 		c.Undecided("R09.9", "global import arm of the linker", 0, "not found")
 	}
 }
+
+// checkRewindUnconditional (R16.10): fd_readdir with cookie 0 on a descriptor that was already read rewinds the directory and
+// drops the cached window on every path: otherwise a stale listing is replayed (an unlinked entry is still listed).
+func checkRewindUnconditional(c *core.Ctx) {
+	p := c.Pkg("internal/sys")
+	if p == nil {
+		return
+	}
+	info := p.TypesInfo
+	found := false
+	core.AllFuncDecls(p, func(fd *ast.FuncDecl) {
+		if core.RecvName(fd) != "DirentCache" {
+			return
+		}
+		ast.Inspect(fd.Body, func(x ast.Node) bool {
+			cc, ok := x.(*ast.CaseClause)
+			if !ok || len(cc.List) == 0 {
+				return true
+			}
+			// the clause for "position 0 with something cached"
+			cond := core.ExprStr(cc.List[0])
+			zero := false
+			ast.Inspect(cc.List[0], func(y ast.Node) bool {
+				if be, ok := y.(*ast.BinaryExpr); ok && be.Op == token.EQL {
+					if v, isK := core.ConstVal(info, be.Y); isK && v == 0 {
+						zero = true
+					}
+				}
+				return true
+			})
+			if !zero {
+				return true
+			}
+			// the Seek call of the clause
+			var seek token.Pos
+			ast.Inspect(cc, func(y ast.Node) bool {
+				if call, ok := y.(*ast.CallExpr); ok && seek == 0 {
+					if se, ok := call.Fun.(*ast.SelectorExpr); ok && se.Sel.Name == "Seek" {
+						seek = call.Pos()
+					}
+				}
+				return true
+			})
+			if seek == 0 {
+				return true
+			}
+			found = true
+			early := ""
+			for _, st := range cc.Body {
+				if st.End() >= seek {
+					break // the statement containing the Seek and everything after it
+				}
+				ast.Inspect(st, func(y ast.Node) bool {
+					switch z := y.(type) {
+					case *ast.BranchStmt:
+						early = z.Tok.String() + " at " + c.Pos(z.Pos())
+					case *ast.ReturnStmt:
+						early = "return at " + c.Pos(z.Pos())
+					}
+					return true
+				})
+			}
+			dumps := false
+			ast.Inspect(cc, func(y ast.Node) bool {
+				if as, ok := y.(*ast.AssignStmt); ok && len(as.Lhs) == 1 && len(as.Rhs) == 1 && as.Pos() > seek {
+					if se, ok := as.Lhs[0].(*ast.SelectorExpr); ok && se.Sel.Name == "dirents" {
+						if id, ok := as.Rhs[0].(*ast.Ident); ok && id.Name == "nil" {
+							dumps = true
+						}
+					}
+				}
+				return true
+			})
+			c.Check(early == "" && dumps, "R16.10", "DirentCache."+fd.Name.Name+": position 0 rewinds and drops the cached window on every path (`"+cond+"`)", cc.Pos(),
+				"the clause seeks to the start and then clears the cache, with no exit before",
+				"the clause can be left ("+early+") before the directory is rewound, or does not clear the cache: fd_readdir with cookie 0 replays the stale window – an entry unlinked since the first listing is still listed while path_filestat_get on it answers ENOENT")
+			return true
+		})
+	})
+	if !found {
+		c.Undecided("R16.10", "rewind clause of the dirent cache", 0, "not found")
+	}
+}
